@@ -42,19 +42,19 @@ type Tap struct {
 	lastKey  map[string][32]byte // flow -> key that last decoded
 	lastUser map[string]string
 
-	eff           map[string]*appctlpb.TrafficPattern // "s" or "c<i>" -> effective pattern
-	orig          map[string]*appctlpb.TrafficPattern
-	mtu           map[string]int
-	attack        map[string]bool // flows / conn addrs that belong to attackers (not real endpoints)
-	hostile       map[string]bool
-	hostileOpened int
-	hostileFirstOpen time.Duration // virtual time of the first hostile session the server answered
-	replied       map[string]int // bytes/datagrams sent by the server towards an attacker flow
-	kinds         map[string]int // segment kinds seen (reach)
-	geo           []spec.SegGeo
-	record        bool
-	refServer     bool // the server address belongs to a reference peer, not to mieru
-	wire          map[string][]byte
+	eff              map[string]*appctlpb.TrafficPattern // "s" or "c<i>" -> effective pattern
+	orig             map[string]*appctlpb.TrafficPattern
+	mtu              map[string]int
+	attack           map[string]bool // flows / conn addrs that belong to attackers (not real endpoints)
+	hostile          map[string]bool
+	hostileOpened    int
+	hostileFirstOpen time.Duration  // virtual time of the first hostile session the server answered
+	replied          map[string]int // bytes/datagrams sent by the server towards an attacker flow
+	kinds            map[string]int // segment kinds seen (reach)
+	geo              []spec.SegGeo
+	record           bool
+	refServer        bool // the server address belongs to a reference peer, not to mieru
+	wire             map[string][]byte
 }
 
 type streamTap struct {
@@ -883,6 +883,35 @@ func (t *Tap) streamOfClient(ci int) ([]byte, []spec.SegGeo) {
 	}
 	b := t.wire[fmt.Sprintf("tcp#%d/0", conn)]
 	return append([]byte(nil), b...), geo
+}
+
+// firstSegmentAny returns the first client-to-server segment a genuine client emitted
+// (first datagram of its first flow, or first segment of its first TCP connection),
+// whether or not it reached the server.
+func (t *Tap) firstSegmentAny(ci int, udp bool) []byte {
+	t.mu.Lock()
+	defer t.mu.Unlock()
+	var best *spec.SegGeo
+	for i := range t.geo {
+		g := &t.geo[i]
+		if g.Client != ci || g.Dir != 0 || (g.Index >= 0) != udp {
+			continue
+		}
+		if best == nil || g.AtUs < best.AtUs {
+			best = g
+		}
+	}
+	if best == nil {
+		return nil
+	}
+	if udp {
+		return append([]byte(nil), t.wire[fmt.Sprintf("%s/%d/%d", best.Scope, best.Dir, best.Index)]...)
+	}
+	b := t.wire[fmt.Sprintf("tcp#%d/0", best.Conn)]
+	if int64(len(b)) < best.End {
+		return nil
+	}
+	return append([]byte(nil), b[best.Start:best.End]...)
 }
 
 // datagramsOfClient returns the recorded client-to-server datagrams of a genuine client's flow, in order.
